@@ -18,7 +18,6 @@ def with_flavour(scen, fl):
 def symrun(ex, scen):
     from driver import Driver
     d1 = Driver(ex, scen)
-    ex.hash_order = None
     ex.hash_record = []
     o1 = d1.run()
     picks = list(ex.hash_record)
